@@ -40,6 +40,9 @@ def update_options(rich):
         for v in (4, 12):
             opts.append(["T", 1, [[a, v], [b, v]]])
     opts.append(["TA", 1, [[2.1, 30]]])  # cumulative volume goes DOWN (then later growth is counted from there)
+    # amounts whose halves are not whole numbers: the queue ahead shrinks by exactly that much, no rounding
+    opts.append(["T", 1, [[2.1, 2.6]]])
+    opts.append(["T", 1, [[2.0, 1.4], [2.2, 3.4]]])
     if rich:
         opts.append(["T", 1, [[2.0, 4], [2.1, 12], [2.2, 4]]])
         opts.append(["T", 1, [[1.9, 12], [2.3, 12]]])  # outside every limit on one side
@@ -264,8 +267,8 @@ def run(tier):
                 use = seqs if (len(orders) <= 2 or not thorough) else [s for s in seqs if len(s) <= 2]
                 for seq in use:
                     for iso in (True, False):
-                        if not iso and len(orders) == 1:
-                            continue
+                        if not iso and len(orders) == 1 and len(seq) > 2:
+                            continue  # lone orders without strategy isolation: the shorter sequences only
                         jobs.append((mode, q, orders, seq, iso))
     # set-up variants: two clients with a user middleware registered before the second client; queue shrinking on
     # the very update that acknowledges the orders
